@@ -70,7 +70,7 @@ impl Check for C16 {
         "E1 single-node engine: the real datacake-node watch_membership_changes task fed harness-made membership snapshots; subscribers obtained from the real DatacakeHandle::membership_changes at seeded moments, reading with seeded delays and folding joined/left into a set"
     }
     fn rule(&self) -> &'static str {
-        "Cases: 1-7 membership snapshots over node ids {1,2,3,4} (join, leave, rejoin, rejoin on another address) at seeded virtual times, 1-3 subscribers attaching before, between or after snapshots and spending 0-40 virtual ms per handled change. In thorough tier all snapshot sequences of length <= 3 over ids {1,2} x 2 address variants with one subscriber at every attach point x {fast, slow} are enumerated first. Real-cluster arm (1 case in 127): 2-4 complete nodes (DatacakeNodeBuilder::connect + store extension) under link holds (short, and long enough for the failure detector), crash/restart, moves to another address, clock jumps; a subscriber attached at node start sums every change; once all views stood still for 2 simulated seconds its sum must equal the membership layer's own view minus the node. Oracle at quiescence (1 s after the last snapshot): each subscriber's folded set (id -> address) equals the last snapshot minus the local node; a monitor that subscribed before the first snapshot and reads at once must have been told `left` with the old address for every disappearance and address change. Non-trivial = >= 2 snapshots that differ. Distinct = hash of (snapshot sequence, subscriber timing)."
+        "Cases: 1-7 membership snapshots over node ids {1,2,3,4} (join, leave, rejoin, rejoin on another address) at seeded virtual times, 1-3 subscribers attaching before, between or after snapshots and spending 0-40 virtual ms per handled change. In thorough tier all snapshot sequences of length <= 3 over ids {1,2} x 2 address variants with one subscriber at every attach point x {fast, slow} are enumerated first. Real-cluster arm (1 case in 127): 2-4 complete nodes (DatacakeNodeBuilder::connect + store extension) under link holds (short, and long enough for the failure detector), crash/restart, moves to another address, clock jumps; a subscriber attached at node start sums every change; once all views stood still for 2 simulated seconds its sum must equal the membership layer's own view minus the node, 240 quiet simulated seconds after the last fault the layer must describe exactly the running nodes at their current addresses, and (also in a second cluster family with harness-made views, anti-entropy switched off and nodes coming back on another address) a level-None write issued on every node after the faults must reach every other live node by direct replication within 4 simulated seconds. Oracle at quiescence (1 s after the last snapshot): each subscriber's folded set (id -> address) equals the last snapshot minus the local node; a monitor that subscribed before the first snapshot and reads at once must have been told `left` with the old address for every disappearance and address change. Non-trivial = >= 2 snapshots that differ. Distinct = hash of (snapshot sequence, subscriber timing)."
     }
     fn assumptions(&self) -> Vec<String> {
         vec![
@@ -94,8 +94,38 @@ impl Check for C16 {
         let mut rng = rng_from(case_seed(seed, idx));
         // real-cluster arm: complete nodes built with the public API, membership from the real
         // gossip layer over the simulated network; a subscriber per node sums the changes
-        if arm_split(idx, 127).is_ok() {
-            return serde_json::json!({ "cluster": crate::e2::c01::gen_real_scenario(&mut rng) });
+        if let Ok(ordinal) = arm_split(idx, 127) {
+            if ordinal % 2 == 0 {
+                let mut sc = crate::e2::c01::gen_real_scenario(&mut rng);
+                sc.probe_direct = true;
+                return serde_json::json!({ "cluster": sc });
+            }
+            // harness-made membership views, anti-entropy off: a node comes back on another
+            // address (left + joined of one id in a single change), then direct replication must
+            // still reach every live peer
+            let k = crate::e2::c01::GenKnobs { max_nodes: 4, max_ops: 12, span_ms: 8_000, level_bias_none: 0.7 };
+            let mut sc = crate::e2::c01::gen_cluster_scenario(&mut rng, &k);
+            sc.cfg.repair_interval_ms = 3_600_000;
+            sc.closing_mode = "explicit".into();
+            sc.probe_direct = true;
+            let ids: Vec<u8> = sc.cfg.nodes.iter().map(|n| n.id).collect();
+            for n in sc.cfg.nodes.iter_mut() {
+                n.storage_faults.clear();
+                n.storage_read_faults.clear();
+            }
+            let span = sc.events.iter().map(|e| e.t()).max().unwrap_or(1_000).max(1_000);
+            for _ in 0..rng.gen_range(1..=2) {
+                let node = ids[rng.gen_range(0..ids.len())];
+                let mt = rng.gen_range(200..span);
+                sc.events.push(crate::e2::c01::Ev::Move { t: mt, node });
+                for p in &ids {
+                    if *p != node {
+                        sc.events.push(crate::e2::c01::Ev::View { t: mt + rng.gen_range(20..900), node: *p, members: ids.clone() });
+                    }
+                }
+            }
+            sc.events.sort_by_key(|e| e.t());
+            return serde_json::json!({ "cluster": sc });
         }
         let ids = rng.gen_range(1..=4u8);
         let n = rng.gen_range(1..=7);
@@ -139,8 +169,17 @@ impl Check for C16 {
                     for d in r.membership_diffs.clone() {
                         r.out.violate("C16/real-cluster/subscriber-sum-differs-from-membership-layer", d);
                     }
+                    // every node that disappears is reported as having left with the address it had,
+                    // every node that is there is reported: 240 quiet simulated seconds after the last
+                    // fault the layer must describe the running nodes at their current addresses
+                    if !r.direct_misses.is_empty() {
+                        r.out.violate("C16/cluster/live-peer-not-addressed-by-direct-replication", r.direct_misses.join("; "));
+                    }
+                    if !r.membership_stale.is_empty() {
+                        r.out.violate("C16/real-cluster/membership-does-not-describe-the-running-nodes", format!("240 simulated seconds after the last fault: {}", r.membership_stale.join("; ")));
+                    }
                     // convergence and the closing exchanges are C01's business
-                    r.out.violations.retain(|v| v.class.starts_with("C16/real-cluster/") || v.class.contains("/panic@"));
+                    r.out.violations.retain(|v| v.class.starts_with("C16/real-cluster/") || v.class.starts_with("C16/cluster/") || v.class.contains("/panic@"));
                     r.out.probe("real_cluster_arm_case");
                     r.out.nontrivial = r.out.faults.values().sum::<u64>() > 0;
                     r.out
